@@ -342,9 +342,18 @@ w('C07', 'success reported without commit', 'C07.R2',
 w('C07', 'recover deleted from safeDepositToken', 'C07.R3',
   (DEP, '\tvar err error\n\tdefer func() {\n\t\tif r := recover(); r != nil {\n\t\t\treason = fmt.Sprintf("panic: %v", r)\n\t\t}\n', '\tvar err error\n\tdefer func() {\n'))
 w('C07', 'hook handlers run on the metered but un-cached context', 'C07.R2',
-  (DEP, '\t\t_, err = handler(cacheCtx, msg)', '\t\t_ = cacheCtx\n\t\t_, err = handler(ctx, msg)'))
+  (DEP, '\t\tres, err := handler(cacheCtx, msg)', '\t\tres, err := handler(ctx, msg)'))
 w('C07', 'hook commits inside the loop (partial effects survive a later failure)', 'C07.R2',
-  (DEP, '\t\t\treason = fmt.Sprintf("Failed to execute Msg: %s", err)\n\t\t\treturn\n\t\t}\n\t}\n\n\tcommit()', '\t\t\treason = fmt.Sprintf("Failed to execute Msg: %s", err)\n\t\t\treturn\n\t\t}\n\t\tcommit()\n\t}\n'))
+  (DEP, '\t\tcacheCtx.EventManager().EmitEvents(res.GetEvents())\n\t}\n\n\tcommit()', '\t\tcacheCtx.EventManager().EmitEvents(res.GetEvents())\n\t\tcommit()\n\t}\n'))
+w('C07', '(repaired tree) hook message events dropped again', 'C07.R10',
+  (DEP, '\t\tcacheCtx.EventManager().EmitEvents(res.GetEvents())\n', '\t\t_ = res\n'))
+w('C04', '(repaired tree) hook message events dropped again', 'C04.R6',
+  (DEP, '\t\tcacheCtx.EventManager().EmitEvents(res.GetEvents())\n', '\t\t_ = res\n'))
+w('C09', 'ExecuteMessages emits only the events of the last executed message', 'C09.R6',
+  (CM, '\t\tevents = append(events, res.GetEvents()...)', '\t\tevents = res.GetEvents()'))
+w('C09', 'BENIGN: hook events collected and emitted on the outer context after the commit', '',
+  (DEP, '\tcacheCtx, commit := ctx.CacheContext()\n', '\tcacheCtx, commit := ctx.CacheContext()\n\tvar hookEvents sdk.Events\n'),
+  (DEP, '\t\tcacheCtx.EventManager().EmitEvents(res.GetEvents())\n\t}\n\n\tcommit()\n', '\t\thookEvents = append(hookEvents, res.GetEvents()...)\n\t}\n\n\tcommit()\n\tctx.EventManager().EmitEvents(hookEvents)\n'))
 w('C07', 'hook gas not capped by hookMaxGas', 'C07.R4',
   (DEP, '\tif gasForHook > hookMaxGas {\n\t\tgasForHook = hookMaxGas\n\t}', '\tif gasForHook < hookMaxGas {\n\t\tgasForHook = hookMaxGas\n\t}'))
 w('C07', 'hook gas never charged to the outer meter', 'C07.R4',
@@ -794,7 +803,11 @@ def patch_edits(path):
         src=open(os.path.join('/repo',h['rel'])).read()
         lines=src.splitlines(keepends=True)
         st=h['start']-1
-        assert ''.join(lines[st:st+len(h['old'])])==''.join(h['old']), (path,h['rel'],h['start'])
+        if ''.join(lines[st:st+len(h['old'])])!=''.join(h['old']):
+            # the file moved under the patch (e.g. a later fix: commit): find the hunk by content, nearest to its old position
+            cands=[k for k in range(len(lines)) if ''.join(lines[k:k+len(h['old'])])==''.join(h['old'])]
+            assert cands, (path,h['rel'],h['start'])
+            st=min(cands,key=lambda k:abs(k-st))
         old=''.join(h['old']); new=''.join(h['new']); k=st
         while src.count(old)!=1 and k>0:
             k-=1; old=lines[k]+old; new=lines[k]+new
@@ -842,6 +855,8 @@ w('C13', 'RemoveValidator marks removal with power -1', 'C13.R10',
   (CM, '\tval.ConsPower = 0\n', '\tval.ConsPower = -1\n'))
 w('C13', 'BENIGN: prune start computed into a local before the loop', '',
   (HI, 'for i := sdkCtx.BlockHeight() - int64(entryNum); i >= 0; i-- {', 'pruneFrom := sdkCtx.BlockHeight() - int64(entryNum)\n\tfor i := pruneFrom; i >= 0; i-- {'))
+wseed('C01b','C01.R4'); wseed('C02b','C02.R6'); wseed('C02b','C16.R6',prop='C16'); wseed('C03b','C03.R4'); wseed('C04b','C04.R6'); wseed('C04b','C09.R6',prop='C09')
+wseed('C05b','C05.R1'); wseed('C06b','C06.R2'); wseed('C07b','C07.R6'); wseed('C08b','C08.R5'); wseed('C08b','C17.R1',prop='C17'); wseed('C09b','C09.R3'); wseed('C10b','C10.R2')
 #@@SEEDS@@
 #@@MORE@@
 for p,l in W.items():
